@@ -139,6 +139,7 @@ struct Node {
 	uint64_t u = 0;
 	double d = 0;
 	std::string s;
+	int str_storage = 0;
 	std::string show_() const
 	{
 		switch (k)
@@ -152,7 +153,7 @@ struct Node {
 			snprintf(bb, sizeof bb, "double node %.17g (0x%016llx)", d, (unsigned long long)dbl_bits(d));
 			return bb;
 		}
-		case Str: return "string node " + quote(s);
+		case Str: return "string node " + quote(s) + (str_storage == 1 ? " (grown with set_string_len)" : str_storage == 2 ? " (shrunk with set_string_len)" : "");
 		case Arr: return "array node";
 		default: return "object node";
 		}
@@ -166,7 +167,24 @@ struct Node {
 		case I64: return json_object_new_int64(i);
 		case U64: return json_object_new_uint64(u);
 		case Dbl: return json_object_new_double(d);
-		case Str: return json_object_new_string_len(s.data(), (int)s.size());
+		case Str: {
+			// the same bytes may live inline, in grown (separate) or in shrunk storage
+			int m = str_storage;
+			if (m == 1)
+			{
+				json_object *j = json_object_new_string_len(s.data(), s.empty() ? 0 : 1);
+				json_object_set_string_len(j, s.data(), (int)s.size());
+				return j;
+			}
+			if (m == 2)
+			{
+				std::string big = s + std::string(24, '#');
+				json_object *j = json_object_new_string_len(big.data(), (int)big.size());
+				json_object_set_string_len(j, s.data(), (int)s.size());
+				return j;
+			}
+			return json_object_new_string_len(s.data(), (int)s.size());
+		}
 		case Arr: {
 			json_object *a = json_object_new_array();
 			json_object_array_add(a, json_object_new_int(5));
@@ -514,6 +532,7 @@ static Node gen_node(Choices &c, Ctx &ctx)
 	case 5:
 		n.k = Node::Str;
 		n.s = gen_numeric_string(c);
+		n.str_storage = (int)c.pickn(3);
 		ctx.label("string_node");
 		break;
 	case 6: n.k = Node::Arr; break;
@@ -655,6 +674,7 @@ void run_case(Choices &c, Ctx &ctx)
 		static const char *pre[12] = {"", " ", "\t", "+", "-", " -", "\t-", "\n+", "  ", "\r-", "00", "-00"};
 		Node n;
 		n.k = Node::Str;
+		n.str_storage = (int)((idx / 12) % 3);
 		n.s = std::string(pre[idx % 12]) + i128s(v < 0 ? -v : v);
 		ctx.note(n.show_());
 		check_accessors(ctx, n);
